@@ -1,6 +1,6 @@
 """C19 (narrow): T-LANE/T-PAIR on Memory 16/32-bit access, UTIL-UNIT, ADVANCE, UTIL-HEX, R-NULL on the command handlers."""
 from nk import report
-from rules import lane, util, null
+from rules import idx, lane, util, null
 from . import common
 
 EXPLANATION = (
@@ -18,7 +18,8 @@ def run(tier, t0):
     ln = lane.lanes(prog, 40)
     ln.obs = [o for o in ln.obs if o.file == 'core/Memory.cpp']
     ln.floor = 8
-    results = [ln, util.util_unit(prog), util.advance(prog), util.util_hex(prog),
+    results = [ln, util.util_unit(prog), util.advance(prog), util.util_hex(prog), util.util_dec(prog),
                null.null_a(prog, lambda f: f.file in ('core/UtilContext.cpp', 'main/naken_util.cpp', 'common/String.cpp',
-                                                     'common/StringTokenizer.cpp'), floor=3)]
+                                                     'common/StringTokenizer.cpp'), floor=3),
+               idx.ptr_into_array(prog, lambda f: f.file in ('core/Memory.cpp', 'core/Memory.h', 'core/MemoryPage.h', 'core/MemoryPage.cpp', 'core/UtilContext.cpp'))]
     return report.finish('C19', tier, results, EXPLANATION, [], common.TRUSTED, t0)
